@@ -184,6 +184,8 @@ package gorp
 //@   requires sortedBy(s.entries)
 //@   ensures  sortedBy(s.entries) && len(s.entries) == old(len(s.entries)) + 1
 //@   ensures  exists p int :: 0 <= p && p < len(s.entries) && s.entries[p].key == key && s.entries[p].value == value && (forall i int :: 0 <= i && i < p ==> s.entries[i] == old(s.entries[i])) && (forall i int :: p < i && i < len(s.entries) ==> s.entries[i] == old(s.entries[i-1]))
+//@   ensures  forall j int :: 0 <= j && j < old(len(s.entries)) ==> (exists i int :: 0 <= i && i < len(s.entries) && s.entries[i] == old(s.entries[j]))
+//@   ensures  forall i int :: 0 <= i && i < len(s.entries) ==> (s.entries[i].key == key && s.entries[i].value == value) || (exists j int :: 0 <= j && j < old(len(s.entries)) && s.entries[i] == old(s.entries[j]))
 //@   modifies &s.entries
 //@ # an ascending / descending walk of entries from start, up to limit keys (0 = all)
 //@ func walkSorted[K Key, V cmp.Ordered](entries []sortedEntry[K, V], start int, dir Direction, limit int) (keys []K)
@@ -210,3 +212,46 @@ package gorp
 //@   # with a limit: a prefix of that
 //@   ensures  limit > 0 ==> len(keys) <= limit
 //@   modifies nothing
+//@ # get: the keys of exactly the entries whose value equals the argument, in index order
+//@ func (s *SortedIndex[K, E, V]) get(value V) (out []K)
+//@   tparams K Key, E Entry[K], V cmp.Ordered
+//@   requires sortedBy(s.entries)
+//@   ensures  exists lo int :: 0 <= lo && lo + len(out) <= len(s.entries) && (forall i int :: 0 <= i && i < lo ==> s.entries[i].value < value) && (forall i int :: lo <= i && i < lo + len(out) ==> s.entries[i].value == value && out[i-lo] == s.entries[i].key) && (forall i int :: lo + len(out) <= i && i < len(s.entries) ==> s.entries[i].value > value)
+//@   modifies nothing
+//@   loop 0 invariant lo <= i && i <= hi && len(out) == hi - lo
+//@   loop 0 invariant forall j int :: lo <= j && j < i ==> out[j-lo] == s.entries[j].key
+//@ # remove deletes the first entry (key, value) if there is one; order and all other entries are kept
+//@ func (s *SortedIndex[K, E, V]) remove(key K, value V)
+//@   tparams K Key, E Entry[K], V cmp.Ordered
+//@   requires sortedBy(s.entries)
+//@   ensures  sortedBy(s.entries)
+//@   ensures  (forall i int :: 0 <= i && i < old(len(s.entries)) ==> !(old(s.entries[i]).key == key && old(s.entries[i]).value == value)) ==> len(s.entries) == old(len(s.entries)) && (forall i int :: 0 <= i && i < len(s.entries) ==> s.entries[i] == old(s.entries[i]))
+//@   ensures  (exists i int :: 0 <= i && i < old(len(s.entries)) && old(s.entries[i]).key == key && old(s.entries[i]).value == value) ==> len(s.entries) == old(len(s.entries)) - 1 && (exists p int :: 0 <= p && p <= len(s.entries) && old(s.entries[p]).key == key && old(s.entries[p]).value == value && (forall i int :: 0 <= i && i < p ==> s.entries[i] == old(s.entries[i])) && (forall i int :: p <= i && i < len(s.entries) ==> s.entries[i] == old(s.entries[i+1])))
+//@   # every entry other than a removed (key, value) one is still there
+//@   ensures  forall j int :: 0 <= j && j < old(len(s.entries)) && !(old(s.entries[j]).key == key && old(s.entries[j]).value == value) ==> (exists i int :: 0 <= i && i < len(s.entries) && s.entries[i] == old(s.entries[j]))
+//@   # and nothing new appears
+//@   ensures  forall i int :: 0 <= i && i < len(s.entries) ==> (exists j int :: 0 <= j && j < old(len(s.entries)) && s.entries[i] == old(s.entries[j]))
+//@   modifies &s.entries
+//@   loop 0 invariant lo <= i && i <= hi && hi <= len(s.entries) && len(s.entries) == old(len(s.entries)) && (forall j int :: 0 <= j && j < len(s.entries) ==> s.entries[j] == old(s.entries[j]))
+//@   loop 0 invariant forall j int :: lo <= j && j < i ==> s.entries[j].key != key
+//@ # representation invariant of the committed sorted index: entries are ordered, every entry is the
+//@ # reverse map's value for its key, keys are not repeated, and every key of the reverse map has an entry
+//@ spec func SI[K Key, E Entry[K], V cmp.Ordered](s *SortedIndex[K, E, V]) bool =
+//@   s.reverse != nil && sortedBy(s.entries) &&
+//@   (forall i int :: 0 <= i && i < len(s.entries) ==> __in(s.reverse, s.entries[i].key) && s.reverse[s.entries[i].key] == s.entries[i].value) &&
+//@   (forall i int, j int :: 0 <= i && i < j && j < len(s.entries) ==> s.entries[i].key != s.entries[j].key) &&
+//@   (forall k K :: __in(s.reverse, k) ==> (exists i int :: 0 <= i && i < len(s.entries) && s.entries[i].key == k))
+//@ func (s *SortedIndex[K, E, V]) setCommitted(key K, value V)
+//@   tparams K Key, E Entry[K], V cmp.Ordered
+//@   requires SI(s)
+//@   ensures  SI(s)
+//@   ensures  __in(s.reverse, key) && s.reverse[key] == value
+//@   ensures  forall k K :: k != key ==> __in(s.reverse, k) == old(__in(s.reverse, k)) && s.reverse[k] == old(s.reverse[k])
+//@   modifies &s.entries, s.reverse
+//@ func (s *SortedIndex[K, E, V]) deleteCommitted(key K)
+//@   tparams K Key, E Entry[K], V cmp.Ordered
+//@   requires SI(s)
+//@   ensures  SI(s)
+//@   ensures  !__in(s.reverse, key)
+//@   ensures  forall k K :: k != key ==> __in(s.reverse, k) == old(__in(s.reverse, k)) && s.reverse[k] == old(s.reverse[k])
+//@   modifies &s.entries, s.reverse
